@@ -448,6 +448,19 @@ func evalCase(kind string, args []string) (res string) {
 			rs[i] = rune(n)
 		}
 		return encInts(vh.GemSplit(rs))
+	case kind == "probe" && len(args) == 1:
+		n, err := strconv.ParseInt(args[0], 10, 64)
+		if err != nil {
+			return "X~parse"
+		}
+		c := rune(int32(n))
+		ps := [][]rune{{0x61, c}, {c, 0x61}, {c, 0x308}, {0x1F468, 0x200D, c}, {0x1F468, c, 0x200D, 0x1F469},
+			{0x1F1E9, c}, {0x1100, c}, {c, 0x1161}, {c, 0x11A8}}
+		outs := make([]string, len(ps))
+		for i, p := range ps {
+			outs[i] = encInts(vh.GemSplit(p))
+		}
+		return strings.Join(outs, ";")
 	case kind == "r2i" && len(args) == 3:
 		a, err := strconv.Atoi(args[0])
 		b, ok1 := decInt(args[1])
